@@ -1326,3 +1326,7 @@ def run(ctx):
     rule_f(ctx)
     rule_g(ctx)
     ctx.assume('tokio::sync::Notify / mpsc / Waker semantics are trusted; Runtime, AsyncUdpSocket, UdpSender, AsyncTimer implementations are component boundaries')
+    # obligations shared with a sibling property (evaluated by the owning module, reported here under letter x)
+    from engine.rulelib import share as _share
+    _share(ctx, 'C17', 'rule_e_handles', 'x', 'a stream handle from rejected 0-RTT is inert: its Drop / finish must not touch the fresh stream that reuses the id')
+
